@@ -655,6 +655,12 @@ class Resolver:
 
     def _call_kinds(self, call, fn, mod):
         out = set()
+        # type(obj): the class(es) of obj
+        if isinstance(call.func, ast.Name) and call.func.id == "type" and len(call.args) == 1 and not call.keywords \
+                and ("ext", "builtins.type") in self.kinds(call.func, fn, mod):
+            ck = {("class", k[1]) for k in self.kinds(call.args[0], fn, mod) if k[0] == "inst"}
+            if ck:
+                return ck
         for k in self.kinds(call.func, fn, mod):
             out |= self.call_result(k, call, fn, mod)
         return out or {UNKNOWN}
